@@ -277,3 +277,134 @@ def dso_gen(rng, tier):
             (None if rng.random() < 0.15 else f"result{q}")
         yield {"func": SimpleNamespace(output_name=out, output_picker=_tagging_picker if multi or rng.random() < 0.5 else None,
                                        fid=f"f{q}"), "output": output, "store": store}
+
+
+# ---- _load_from_store: what a later function (or a resumed run) reads back ------------------------------------------------
+StoreValV.identity = "sid"
+TStoredPayload = TUnion("StoredPayload", [("none", None), ("list", SO), ("one", TObj)],
+                        to_py=lambda t: None if t.tag == "none" else (list(t.value) if t.tag == "list" else t.value),
+                        from_py=lambda x: Tagged("none") if x is None else (Tagged("list", tuple(x)) if isinstance(x, list)
+                                                                            else Tagged("one", x)))
+StoredValueV = TRec("_StoredValue", {"value": TStoredPayload, "exists": TBool})
+
+stored_value_ctor = Contract(
+    f"{F}::_StoredValue", params={"value": TStoredPayload, "exists": TBool}, returns=StoredValueV, trusted=True, pure=True,
+    ensures=lambda S, a, r, post: ({"fields": S.and_(S.eq(r.value, a.value), r.exists == a.exists)} if S.symbolic else {}),
+    note="NamedTuple constructor")
+entry_is_file = Contract(
+    f"{F}::StoreValV.is_file", params={"self": StoreValV}, returns=TBool, trusted=True, pure=True,
+    ensures=lambda S, a, r, post: ({"a file exists iff the entry holds something": r == S.not_(S.is_none(a.self.value))}
+                                   if S.symbolic else {}),
+    note="Path.is_file() on the store view")
+entry_exists = Contract(
+    f"{F}::StoreValV.exists", params={"self": StoreValV}, returns=TBool, trusted=True, pure=True,
+    ensures=lambda S, a, r, post: ({"a DirectValue exists iff it holds something": r == S.not_(S.is_none(a.self.value))}
+                                   if S.symbolic else {}),
+    note="DirectValue.exists() on the store view")
+load_from_path = Contract(
+    "pipefunc/_utils.py::load", params={"path": StoreValV}, returns=TObj, trusted=True, pure=True,
+    requires=lambda S, a: {"a file is there": S.not_(S.is_none(a.path.value))},
+    ensures=lambda S, a, r, post: ({"the object the file holds": S.eq(r, S.some(a.path.value))} if S.symbolic else {}),
+    note="_utils.load(path): the unpickled content, on the store view")
+
+
+def _read(S, e, return_output=True):
+    """What reading a store entry yields: the storage array itself; the held value; None when nothing is held (and for
+    a file when the caller does not want the output)."""
+    if S.symbolic:
+        from pyvc.types import Val, unwrap
+        none_obj = unwrap(Val(TObj, TObj.lit(None)))
+        held = S.ite(S.is_none(e.value), lambda: none_obj, lambda: S.some(e.value))
+        return S.ite(e.is_storage, lambda: e.sid, lambda: S.ite(
+            S.and_(e.is_path, S.not_(return_output)), lambda: none_obj, lambda: held))
+    st, pa, di = _kind(S, e)
+    if st:
+        return e
+    h = _held(S, e)
+    if pa and not return_output:
+        return None
+    return None if h is None else h[1]
+
+
+def _present(S, e):
+    if S.symbolic:
+        return S.or_(e.is_storage, S.not_(S.is_none(e.value)))
+    return _kind(S, e)[0] or _held(S, e) is not None
+
+
+def _lfs_names(S, a):
+    return S.ite(S.is_tag(a.output_name, "str"), lambda: 1, lambda: S.len(S.untag(a.output_name, "tuple")))
+
+
+def _lfs_name(S, a, i):
+    return S.ite(S.is_tag(a.output_name, "str"), lambda: S.untag(a.output_name, "str"),
+                 lambda: S.untag(a.output_name, "tuple")[i])
+
+
+def _lfs_ensures(S, a, r, post):
+    n = _lfs_names(S, a)
+    entry = lambda i: a.store[_lfs_name(S, a, i)]  # noqa: E731
+    if S.symbolic:
+        val = r.value
+        return {
+            "exists: every output name has a storage array or holds a value": S.iff(
+                r.exists, S.forall(0, n, lambda i: _present(S, entry(i)))),
+            "not asked for the output: no value": S.implies(S.not_(a.return_output), lambda: S.is_tag(val, "none")),
+            "one output name: what its entry yields": S.implies(S.and_(a.return_output, n == 1), lambda: S.and_(
+                S.is_tag(val, "one"), lambda: S.eq(S.untag(val, "one"), _read(S, entry(0))))),
+            "several output names: what each entry yields, in the order of the names": S.implies(
+                S.and_(a.return_output, n != 1), lambda: S.and_(
+                    S.is_tag(val, "list"), lambda: S.len(S.untag(val, "list")) == n,
+                    lambda: S.forall(0, n, lambda i: S.eq(S.untag(val, "list")[i], _read(S, entry(i)))))),
+        }
+    names = [a.output_name] if isinstance(a.output_name, str) else list(a.output_name)
+    want = [_read(S, a.store[k], a.return_output) for k in names]
+    got = r.value
+    ident = lambda x: getattr(x, "eid", id(x))  # noqa: E731  (storage arrays of the bounded rung carry an identity tag)
+    same = lambda x, y: (ident(x) == ident(y)) if _kind(S, y)[0] else x == y  # noqa: E731
+    return {
+        "exists: every output name has a storage array or holds a value": r.exists == all(_present(S, a.store[k]) for k in names),
+        "value": (got is None) if not a.return_output else (
+            same(got, a.store[names[0]]) if len(names) == 1 and _kind(S, a.store[names[0]])[0] else
+            got == want[0] if len(names) == 1 else
+            (isinstance(got, list) and len(got) == len(want) and all(
+                same(g, a.store[k]) if _kind(S, a.store[k])[0] else g == w for g, w, k in zip(got, want, names)))),
+    }
+
+
+def _lfs_inv(S, a, v, k):
+    entry = lambda i: a.store[_lfs_name(S, a, i)]  # noqa: E731
+    return {
+        "read so far": S.and_(S.len(v.outputs) == k, lambda: S.forall(0, k, lambda i: S.eq(
+            v.outputs[i], _read(S, entry(i), a.return_output)))),
+        "all present so far": S.iff(v.all_exist, S.forall(0, k, lambda i: _present(S, entry(i)))),
+        "names so far are in the store": S.forall(0, k, lambda i: S.has(a.store, _lfs_name(S, a, i))),
+    }
+
+
+load_from_store = Contract(
+    f"{F}::_load_from_store", params={"output_name": TOut, "store": DStoreV, "return_output": TBool},
+    defaults={"return_output": True}, returns=StoredValueV,
+    requires=lambda S, a: {"store entries are of exactly one kind": _wf_store(S, a.store)},
+    raises=[("KeyError", lambda S, a: S.exists(0, _lfs_names(S, a), lambda i: S.not_(S.has(a.store, _lfs_name(S, a, i)))))],
+    ensures=_lfs_ensures, loops={0: LoopSpec(_lfs_inv)}, locals_={"outputs": SO},
+)
+from .misc import at_least_tuple as _alt  # noqa: E402
+LOAD = [_alt, stored_value_ctor, entry_is_file, entry_exists, load_from_path, load_from_store]
+
+
+def lfs_gen(rng, tier):
+    from .misc import _scratch_dir
+    tmp = _scratch_dir("vf_store3_")
+    for q in range(400 if tier == "quick" else 4000):
+        multi = rng.random() < 0.5
+        out = tuple(rng.sample(["a", "b", "c"], rng.randint(1, 3))) if multi else rng.choice(["a", "b"])
+        names = list(out) if multi else [out]
+        store = _mk_store(rng, tmp, q, [n for n in ("a", "b", "c") if n in names or rng.random() < 0.5])
+        if rng.random() < 0.1 and store:
+            store.pop(rng.choice(sorted(store)))
+        yield {"output_name": out, "store": store, "return_output": rng.random() < 0.8}
+
+
+def lfs_call(fn, a):
+    return fn(a["output_name"], a["store"], return_output=a["return_output"])
